@@ -67,6 +67,8 @@ def obj_binary(name):
         return lambda x: onemax(x) + 1e6
     if name == "view":    # returns a VIEW of its argument (the first locus): the caller's array must not be written to
         return lambda x: x[:, 0] if isinstance(x, np.ndarray) else np.asarray(x)[:, 0]
+    if name == "fail_hi":  # failed evaluations reported as +inf (the worst value when minimising)
+        return lambda x: np.where(onemax(x) >= 6, np.inf, onemax(x))
     if name == "inf":     # the best values are infinite (1/error with error 0, log(0)): +inf above, -inf below
         return lambda x: np.where(onemax(x) >= 7, np.inf, np.where(onemax(x) <= 2, -np.inf, onemax(x)))
     raise KeyError(name)
@@ -89,6 +91,8 @@ def obj_float(name):
         return lambda x: np.sum(np.asarray(x, dtype=np.float64), axis=1) * 3.0 + 11.0
     if name == "offset":
         return lambda x: np.round(sphere(x) * 8.0) / 8.0 + 1e12
+    if name == "fail_hi":
+        return lambda x: np.where(sphere(x) >= 6.0, np.inf, sphere(x))
     if name == "inf":
         return lambda x: np.where(sphere(x) >= 9.0, np.inf, np.where(sphere(x) <= 1.5, -np.inf, sphere(x)))
     if name == "view":    # returns a VIEW of its argument (the first coordinate)
@@ -129,6 +133,8 @@ def obj_tree(name):
         return lambda trees: size(trees) + 1e12
     if name == "offset6":
         return lambda trees: size(trees) + 1e6
+    if name == "fail_hi":
+        return lambda trees: np.where(size(trees) >= 9, np.inf, size(trees))
     if name == "inf":
         return lambda trees: np.where(size(trees) >= 11, np.inf, np.where(size(trees) <= 2, -np.inf, size(trees)))
     raise KeyError(name)
